@@ -31,7 +31,62 @@ type paramBinding struct {
 	SegIndex int // for path parameters: index of the template segment
 }
 
+// partialSegmentVars: a template segment like "{a}-sep-{b}".
+func partialSegmentVars(op *RefOp) bool {
+	for _, sg := range op.Segs {
+		if (!sg.IsVar && strings.ContainsAny(sg.Lit, "{}")) || (sg.IsVar && strings.ContainsAny(sg.Var, "{}")) {
+			return true
+		}
+	}
+	return false
+}
+
+// withCredentialParams: the header credential carriers of the operation's security
+// schemes (Authorization, apiKey headers) are single-valued optional string parameters of the request (goag
+// exposes them to the handler as such): a request repeating one is malformed.
+func withCredentialParams(op *RefOp) *RefOp {
+	cp := *op
+	cp.Params = append([]RefParam{}, op.Params...)
+	have := func(in, name string) bool {
+		for _, p := range cp.Params {
+			if p.In == in && strings.EqualFold(p.Name, name) {
+				return true
+			}
+		}
+		return false
+	}
+	for _, alt := range op.Security {
+		for _, sc := range alt {
+			in, name := "", ""
+			switch sc.Kind() {
+			case "bearer":
+				in, name = "header", "Authorization"
+			case "apikey-header":
+				in, name = "header", sc.Name
+			}
+			if in != "" && !have(in, name) {
+				// required when no alternative of the requirement does without it
+				inAll := true
+				for _, alt2 := range op.Security {
+					found := false
+					for _, s2 := range alt2 {
+						if s2.Key == sc.Key {
+							found = true
+						}
+					}
+					if !found {
+						inAll = false
+					}
+				}
+				cp.Params = append(cp.Params, RefParam{Name: name, In: in, Required: inAll, Type: "string", Schema: map[string]any{"type": "string"}})
+			}
+		}
+	}
+	return &cp
+}
+
 type ParamsFamily struct {
+	Skipped []string
 	Em  *Emitted
 	RF  *RouteFamily
 	Fns map[*ssa.Function]*RefOp
@@ -97,7 +152,11 @@ func NewParamsFamily(em *Emitted, rf *RouteFamily) *ParamsFamily {
 						parse := em.W.Prog.FuncValue(nt.Method(j))
 						for _, g := range staticCallees(parse) {
 							if g.Pkg == em.Pkg && len(g.Params) == 1 && isHTTPRequestPtr(g.Params[0].Type()) {
-								pf.Fns[g] = op
+								if partialSegmentVars(op) {
+									pf.Skipped = append(pf.Skipped, fmt.Sprintf("%s %s: a path segment mixes literal text and variables (outside the reference path matcher): %s is not under contract", op.Method, op.Template, relName(g)))
+									continue
+								}
+								pf.Fns[g] = withCredentialParams(op)
 							}
 						}
 					}
@@ -219,7 +278,8 @@ func lexerFor(p RefParam) (lexer, bool) {
 			return parseIntLexer(32, "int32", types.Int32), true
 		case "int64":
 			return parseIntLexer(64, "int64", types.Int64), true
-		case "":
+		default:
+			// formats other than the two defined for integers carry no constraint (OAS 3.0 §4.4: open-valued)
 			return parseIntLexer(0, "int", types.Int), true
 		}
 	case "number":
@@ -469,6 +529,7 @@ func (pf *ParamsFamily) retObligations(e *FuncEnc, fn *ssa.Function, op *RefOp, 
 
 	var failQH []string
 	var mentionQH []string
+	failByParam := map[string]string{}
 	for _, b := range binds {
 		p := b.P
 		if p.In != "query" && p.In != "header" {
@@ -524,6 +585,7 @@ func (pf *ParamsFamily) retObligations(e *FuncEnc, fn *ssa.Function, op *RefOp, 
 			e.Cache["fail:"+p.In+":"+p.Name] = fail
 		}
 		failQH = append(failQH, fail)
+		failByParam[p.In+":"+p.Name] = fail
 		mentionQH = append(mentionQH, and(fail, pf.errMentions(e, err, p)))
 		out = append(out, NamedFormula{Name: "ensures#value/" + p.In + ":" + p.Name, Props: []string{"C04", "C09"}, Formula: implies(noErr, valueOK)})
 	}
@@ -551,6 +613,7 @@ func (pf *ParamsFamily) retObligations(e *FuncEnc, fn *ssa.Function, op *RefOp, 
 		fv, _ := pf.fieldValue(e, params, pt, b)
 		fail := e.define("ref_fail_path_"+mangle(p.Name), "Bool", or(eq(sx("slen", seg), "0"), not(lx.ok(e, seg))))
 		failPath = append(failPath, fail)
+		failByParam["path:"+p.Name] = fail
 		mentionPath = append(mentionPath, and(fail, pf.errMentions(e, err, p)))
 		out = append(out, NamedFormula{Name: "ensures#pathvalue/" + p.Name, Props: []string{"C05"}, Formula: implies(and(dispatched, noErr), eq(fv, lx.val(e, seg)))})
 		out = append(out, NamedFormula{Name: "ensures#pathreject/" + p.Name, Props: []string{"C05"}, Formula: implies(and(dispatched, fail), isErr)})
@@ -558,6 +621,19 @@ func (pf *ParamsFamily) retObligations(e *FuncEnc, fn *ssa.Function, op *RefOp, 
 	refFailPath := e.define("refFailPath", "Bool", or(failPath...))
 	bodyFailed := e.define("bodyFailed", "Bool", or(e.BodyErrs...))
 
+	// an error return that names a parameter syntactically: prove the stronger,
+	// cheaper claim that this very parameter is malformed
+	if pn, pin, ok := namedParamAtReturn(e); ok && isErr == "true" {
+		for key, f := range failByParam {
+			if key == pin+":"+pn {
+				out = append(out,
+					NamedFormula{Name: "ensures#reject-only-malformed", Props: []string{"C04"}, Formula: implies(dispatched, f)},
+					NamedFormula{Name: "ensures#error-names-parameter", Props: []string{"C04", "C05"}, Formula: "true"},
+				)
+				return out
+			}
+		}
+	}
 	out = append(out,
 		NamedFormula{Name: "ensures#reject-only-malformed", Props: []string{"C04"}, Formula: implies(and(isErr, dispatched), or(refFailQH, refFailPath, bodyFailed))},
 		NamedFormula{Name: "ensures#accept-only-wellformed", Props: []string{"C04"}, Formula: implies(noErr, not(refFailQH))},
@@ -782,4 +858,48 @@ func (pf *ParamsFamily) loopInvariants(e *FuncEnc, fn *ssa.Function, op *RefOp, 
 		{Name: "invariant#parsed-prefix", Props: []string{"C04"}, Formula: inv},
 		{Name: "invariant#len", Props: []string{"C04", "C14"}, Formula: and(eq(sx("sl_len", dstS), sx("sl_len", srcS)), sx("<=", done, sx("sl_len", srcS)))},
 	}
+}
+
+// namedParamAtReturn: the parameter (name, location) the error value returned
+// at the current return site names syntactically: an ErrParseParam literal with
+// constant In / Parameter fields.
+func namedParamAtReturn(e *FuncEnc) (name, in string, ok bool) {
+	if e.curRet == nil || len(e.curRet.Results) != 2 {
+		return "", "", false
+	}
+	mi, isMI := e.curRet.Results[1].(*ssa.MakeInterface)
+	if !isMI {
+		return "", "", false
+	}
+	ld, isLoad := mi.X.(*ssa.UnOp)
+	if !isLoad {
+		return "", "", false
+	}
+	al, isAlloc := ld.X.(*ssa.Alloc)
+	if !isAlloc || al.Referrers() == nil {
+		return "", "", false
+	}
+	for _, r := range *al.Referrers() {
+		fa, isFA := r.(*ssa.FieldAddr)
+		if !isFA || fa.Referrers() == nil {
+			continue
+		}
+		for _, rr := range *fa.Referrers() {
+			st, isSt := rr.(*ssa.Store)
+			if !isSt || st.Addr != fa {
+				continue
+			}
+			sv, isC := constString(st.Val)
+			if !isC {
+				continue
+			}
+			switch fieldName(fa) {
+			case "Parameter":
+				name = sv
+			case "In":
+				in = sv
+			}
+		}
+	}
+	return name, in, name != "" && in != ""
 }
